@@ -414,6 +414,9 @@ def unit_memory_run_glue() -> Dict[str, Any]:
         extra.append(Obl(f'{tag}.cover', list(s.pc), None, 'cover'))
         extra.append(Obl(f'{tag}.ring_released_exactly_once', list(s.pc), z3.BoolVal(s.ghost.get('ring_live', 0) == 0)))
         lp = s.ghost.get('loop')
+        if lp:  # once a loop ran, the list kept on the object is this run's (exception path with a ring) or none: never the previous run's
+            kept0 = s.M['f:last_run_last_ops']
+            extra.append(Obl(f'{tag}.no_stale_last_ops_list_survives_a_run', list(s.pc), (z3.BoolVal(True) if (isinstance(kept0, Ptr) and (kept0.where == 'last_ops_list' or _is_null(kept0))) else (kept0.null if isinstance(kept0, Ptr) else z3.BoolVal(False)))))
         if lp and lp.get('has_ring'):
             n_ring_paths += 1
             if _is_null(where[1]):  # exception path: the list of the ops executed so far is kept on the object (or NULL if it could not be built)
@@ -559,4 +562,58 @@ def unit_generic_loop_dispatch(w: int) -> Dict[str, Any]:
     if n < 2 or len(calls) < 2:
         raise Undecided(f'{name}: expected a path with and one without a ring')
     extra.append(Obl(f'{ex.name}:canary', list(st.pc), None, 'canary'))
+    return finish_unit(_Unit(list(ex.obligations) + extra), [])
+
+
+def unit_get_last_ops() -> Dict[str, Any]:
+    """Memory_get_last_ops (the `last_run_last_ops` attribute _run_native reads on its exception path): returns the list kept by
+    Memory_run with a new reference, or a new empty list when none is kept; the kept list itself stays."""
+    name = 'Memory_get_last_ops'
+    ex = _glue_exec(name)
+    outs_all = []
+    for kept_null in (False, True):
+        st = CState()
+        st.M['pyerr'] = z3.BoolVal(False)
+        st.M['f:last_run_last_ops'] = NULL if kept_null else Ptr('pyobj', 'kept_list', z3.BoolVal(False))
+        st.vars['self'], st.vars['closure'] = Ptr('mem'), Ptr('opaque', 'closure')
+        st.ghost['incref'] = 0
+
+        def list_new(e, s0, args, node):
+            fail = s0.fork()
+            fail.M['pyerr'] = z3.BoolVal(True)
+            yield (fail, NULL)
+            ok = s0.fork()
+            ok.ghost['new_list_len'] = args[0]
+            yield (ok, Ptr('pyobj', 'new_empty_list'))
+
+        def incref(e, s0, args, node):
+            s = s0.fork()
+            if not (isinstance(args[0], Ptr) and args[0].where == 'kept_list'):
+                raise Undecided(f'{name}: Py_INCREF of {args[0]!r}')
+            s.ghost['incref'] = s.ghost.get('incref', 0) + 1
+            yield (s, None)
+
+        ex.contracts['PyList_New'] = list_new
+        ex.contracts['Py_INCREF'] = ex.contracts['_Py_INCREF'] = ex.contracts['Py_IncRef'] = incref
+        for i, (s, where) in enumerate(ex.run(st, 0, stop=set())):
+            outs_all.append((kept_null, i, s, where))
+    extra: List[Obl] = []
+    for kept_null, i, s, where in outs_all:
+        if where[0] != 'return':
+            raise Undecided(f'{name}: path ended at label {where[1]}')
+        tag = f"{name}:{'nothing_kept' if kept_null else 'list_kept'}.path{i}"
+        ret = where[1]
+        extra.append(Obl(f'{tag}.cover', list(s.pc), None, 'cover'))
+        keeps = s.M['f:last_run_last_ops']
+        same_field = (_is_null(keeps) if kept_null else (isinstance(keeps, Ptr) and keeps.where == 'kept_list'))
+        extra.append(Obl(f'{tag}.kept_list_stays_on_the_object', list(s.pc), z3.BoolVal(bool(same_field))))
+        if kept_null:
+            if _is_null(ret):
+                extra.append(Obl(f'{tag}.failure_sets_an_error', list(s.pc), s.M['pyerr']))
+            else:
+                extra.append(Obl(f'{tag}.returns_a_new_empty_list', list(s.pc), z3.And(z3.BoolVal(isinstance(ret, Ptr) and ret.where == 'new_empty_list'), s.ghost['new_list_len'] == 0, z3.Not(s.M['pyerr']))))
+        else:
+            extra.append(Obl(f'{tag}.returns_the_kept_list_with_one_new_reference', list(s.pc), z3.And(z3.BoolVal(isinstance(ret, Ptr) and ret.where == 'kept_list' and s.ghost.get('incref', 0) == 1), z3.Not(s.M['pyerr']))))
+    if len(outs_all) < 3:
+        raise Undecided(f'{name}: expected at least three paths')
     return finish_unit(_Unit(list(ex.obligations) + extra), [])
